@@ -483,6 +483,22 @@ GROUPS["bvd_div"] = G("bvd_div", BVD_VAL_PRELUDE + ["value_div.rs", "bvd_div.rs"
     BVD_BASE + stub(BVD_CORE) + stub(["bvd.is_zero", "bvd.significant_bits", "bvd.resize", "bvd.clone", "bvd.from_bvd", "bvd.partial_cmp_bvd"]) +
     [("stub", "bvd.shl_assign", {"T": "usize"}), ("stub", "bvd.shr_assign", {"T": "u32"}), ("stub", "bvd.addsub_bvd", ARITH_D["sub"])] + verify(["bvd.div_rem_bvd"]))
 GROUPS["bvd_div"]["features"] = "#![feature(allocator_api)]"
+# TryFrom<&Bv> for Bvf<I,N>: the Bv vocabulary (Bvf<u64,2>, Bvd, Bv) lives under suffix XD when I != u64
+def bvf_from_bv_prelude(ctx):
+    p = BVF_PRELUDE + ["iarray.rs"]
+    if ctx["I"] != "u64":
+        p += [("word.rs", {"I": "u64", "X": "_u64"}), ("bvf.rs", {"I": "u64", "X": "_u64"})]
+    p += [("bvd.rs", {"X": "{XD}"}), ("chunk.rs", {"I": "u64", "J": "{I}", "X": "{XD}", "Y": ""}), ("bv.rs", {"X": "{XD}"})]
+    return p
+def bvf_from_bv_items(ctx):
+    od = {"I": "u64", "X": "{XD}"}
+    it = BVF_BASE + [("decl", "decl.Bvd"), ("decl", "decl.Bv128"), ("decl", "decl.Bvp"), ("decl", "decl.Bv")]
+    if ctx["I"] != "u64":
+        it += [("decl", "int.constants", {"I": "u64", "X": "_u64"})] + [("stub", u, {"I": "u64", "X": "_u64"}) for u in INT_METHODS]
+    it += stub(BVF_CORE)
+    it += [("stub", "bv.len", od), ("stub", "bv.int_len", {"I": "u64", "X": "{XD}", "J": "{I}", "Y": ""}), ("stub", "bv.get_int", {"I": "u64", "X": "{XD}", "J": "{I}", "Y": ""})]
+    return it + verify(["bvf.try_from_bv"])
+GROUPS["bvf_conv_bv"] = dict(name="bvf_conv_bv", features="#![feature(allocator_api)]", prelude=bvf_from_bv_prelude, items=bvf_from_bv_items)
 GROUPS["div_theory"] = dict(name="div_theory", prelude=lambda ctx: WORD_PRELUDE + VALUE_PRELUDE + ["value_div.rs"], items=lambda ctx: [("decl", "decl.Bit")])
 GROUPS["mul_theory"] = dict(name="mul_theory", prelude=lambda ctx: WORD_PRELUDE + VALUE_PRELUDE + ["value_mul.rs"], items=lambda ctx: [("decl", "decl.Bit")])
 
@@ -671,8 +687,8 @@ def dshift_ref(ts):
     return [("bvd_shift_ref", {"I": "u64", "T": t}) for t in ts]
 PROPS["C05"]["quick"] += dshift_ref(["u8", "u128"])
 PROPS["C05"]["thorough"] += dshift_ref(TYPES6)
-PROPS["C12"]["quick"] += [("bv_conv", pair("u64", j)) for j in WQ]
-PROPS["C12"]["thorough"] += [("bv_conv", pair("u64", j)) for j in W4]
+PROPS["C12"]["quick"] += [("bv_conv", pair("u64", j)) for j in WQ] + [("bvf_conv_bv", dctx(i)) for i in WQ]
+PROPS["C12"]["thorough"] += [("bv_conv", pair("u64", j)) for j in W4] + [("bvf_conv_bv", dctx(i)) for i in W4]
 def hash_jobs(ws):
     return ([("bvf_hash", {"I": i}) for i in ws] + [("bvd_hash", U64), ("bv_hash", U64), ("bv_defaults", U64), ("bv_iarray", {"I": "u64", "J": "u64"})] +
             jobs("bvf_defaults", ws) + [("bvd_defaults", U64)])
@@ -817,7 +833,7 @@ MANIFEST_TEXT["C12"] = dict(
     text=("Proof: TryFrom<&Bvf<I1,N1>> for Bvf<I2,N2> (any two word sizes), TryFrom<&Bvd> for Bvf<I,N> and From<&Bvf<I,N>> for Bvd are verified against the contract "
           "`Err(NotEnoughCapacity) exactly when the source is LONGER than the target capacity (whatever its value); otherwise Ok with the same length, the same bit at every index below len, "
           "storage beyond len zero (wf), and for Bvd exactly ceil(len/64) words`, on top of the verified chunk readers IArray::get_int/int_len of Bvf and Bvd (every word-size pair)." + DYN_NOTE),
-    note=("Also verified: From<&Bv>/From<Bvd>/From<&Bvd>/From<&Bvf<J,N>> for Bv (inline exactly when the length / the source capacity fits 128 bits) and From<&Bv> for Bvd. Not yet under contract (second engine only): the by-value forms (forwarders), TryFrom<&Bv> for Bvf, From<&[I]>, new/into_inner round trip (new/into_inner themselves are verified, see C07). "
+    note=("Also verified: From<&Bv>/From<Bvd>/From<&Bvd>/From<&Bvf<J,N>> for Bv (inline exactly when the length / the source capacity fits 128 bits) and From<&Bv> for Bvd. TryFrom<&Bv> for Bvf<I,N> is verified too. Not yet under contract (second engine only): the by-value forms (forwarders), From<&[I]>, new/into_inner round trip (new/into_inner themselves are verified, see C07). "
           "The slice-level get_int (unsafe align_to / word-combining loop in utils.rs) is a trusted contract (T2). " + TRUST_NOTE))
 dyn_only("C13", "to_vec/write/from_bytes/read for both endiannesses incl. surplus bits, short input, capacity errors and round trips.", "from_bytes (enumerate/rev iterator adapters) and read/write (io traits, `?`) are outside what Verus takes; D3 was found and fixed. ONE direction IS verified on every run of this check: to_vec of Bvf, Bvd and Bv "
          "(exactly ceil(len/8) bytes; Little: bit t of byte j is bit 8j+t of the vector, surplus bits of the top byte zero; Big: the same bytes reversed) - units bvf.to_vec, bvd.to_vec, bv.to_vec; a definite failure there is reported as a violation of this property.")
